@@ -61,6 +61,19 @@ Theorem C14_fixups_touch_three_keys : forall root cfg n,
   get n (fixup root cfg) = get n cfg.
 Proof. exact fixup_other_lemma. Qed.
 
+(* history independence — a project WITHOUT config.yml gets one generated from the defaults before the first
+   run reads it; over ANY sequence of runs on the project (same session or later program starts), the
+   configuration of run k depends only on the project file as it was before the first run and on line k
+   itself; with no file at the start it is: defaults overlaid by line k's own arguments — never by those
+   of an earlier line *)
+Theorem C14_history_independent : forall pf s runs st k es, nth_error runs k = Some es ->
+  nth_error (run_seq pf s st runs) k = Some (effective pf s (autogen s st) es).
+Proof. exact history_lemma. Qed.
+
+Theorem C14_history_independent_no_file : forall pf s runs k es, NoDup (names s) -> nth_error runs k = Some es ->
+  nth_error (run_seq pf s None runs) k = Some (effective pf s (fun _ => None) es).
+Proof. exact history_nofile_lemma. Qed.
+
 (* non-vacuity: a three-key schema; line "B=7 zz=1 A=2.5 B=8 C=maybe D"; file gives A and C *)
 Example C14_nonvacuous :
   let pf := fun s => if s =? "2.5" then Some 4612811918334230528%Z else None in
@@ -80,3 +93,5 @@ Print Assumptions C14_order_independent.
 Print Assumptions C14_token_order_independent.
 Print Assumptions C14_depends_on_last_values_only.
 Print Assumptions C14_fixups_touch_three_keys.
+Print Assumptions C14_history_independent.
+Print Assumptions C14_history_independent_no_file.
